@@ -32,12 +32,15 @@
 EXTENDS Naturals, Integers, Sequences, FiniteSets, TLC
 
 CONSTANTS Transports,   \* subset of {"pty", "popen", "fd", "socket"}
-          Disps,        \* subset of {"default", "ignore"}   (ignore: trap '' HUP INT)
+          Disps,        \* subset of {"default", "ignore", "core"}   (ignore: trap '' HUP INT; core: default
+                        \* dispositions, RLIMIT_CORE raised in a directory where a core file can be written)
           Codes,        \* exit codes the child may choose
           ExtSigs,      \* signals the environment may send to the child (19 = STOP, 18 = CONT)
           KillSigs,     \* arguments of the operation Kill(sig)
           MaxOps,       \* operations per behaviour
           MaxEnv,       \* environment actions per behaviour
+          Logs,         \* log-file configurations a behaviour may start with: subset of {"none", "open"}
+          Steal,        \* BOOLEAN: somebody else in the program may collect the dead child's status
           Devs          \* named deviations switched on
 
 HUP == 1  INT == 2  KILL == 9  TERM == 15  CONT == 18  STOP == 19
@@ -51,11 +54,20 @@ vars == <<s, last, nops, nenv>>
 
 ChildTransports == {"pty", "popen"}
 
-InitState(tr, disp) ==
+\* signals whose default action is "dump core" (QUIT ILL TRAP ABRT BUS FPE SEGV XCPU XFSZ SYS)
+CoreSigs == {3, 4, 5, 6, 7, 8, 11, 24, 25, 31}
+
+\* log: "none" | "open" | "closed" - the file object attached as logfile (lsend: it logs what is sent:
+\* logfile / logfile_send; otherwise logfile_read).  It belongs to the caller, who may close it.
+InitStateL(tr, disp, log, lsend) ==
   [tr |-> tr,
    \* ---- kernel ----
    proc |-> "run",           \* "run" | "stop" | "zombie" | "reaped"
    fk |-> "none", fv |-> None,   \* real fate: "exit" code | "sig" number
+   fc |-> FALSE,             \* ... and the kernel's "dumped core" flag (bit 0x80 of the wait status)
+   core |-> (disp = "core"), \* the child is allowed to dump core
+   stolen |-> FALSE,         \* the status of the dead child was collected by someone else (foreign
+                             \* waitpid, or SIGCHLD ignored in the host program: the kernel discards it)
    disp |-> disp,
    pend |-> {},              \* fatal signals pending while stopped
    fd |-> "open",            \* "open" | "closed" | "reused" (the number belongs to someone else)
@@ -69,9 +81,13 @@ InitState(tr, disp) ==
    fdv |-> "num",            \* child_fd: "num" (the original number) | "m1" (-1)
    es |-> None, ss |-> None, \* exitstatus, signalstatus
    sk |-> "none", sv |-> None,   \* status, decoded: "exit"/"sig" and value
+   sc |-> FALSE,             \* status, decoded: WCOREDUMP
+   log |-> log, lsend |-> lsend,
    eof |-> FALSE,            \* flag_eof
    obs |-> FALSE,            \* history: pexpect has observed the death
    gone |-> FALSE]           \* the object was dropped
+
+InitState(tr, disp) == InitStateL(tr, disp, "none", TRUE)
 
 \* result of an operation: state after, return value / exception class (+ integer value), and
 \* the name of the deviation this outcome belongs to ("" = the intended behaviour)
@@ -82,7 +98,8 @@ Dev(x, name) == [x EXCEPT !.dev = name]
 (* ---------------------------- kernel ------------------------------------- *)
 MinOf(S) == CHOOSE x \in S : \A y \in S : x <= y
 Live(st) == st.proc \in {"run", "stop"}
-Die(st, kind, v) == [st EXCEPT !.proc = "zombie", !.fk = kind, !.fv = v, !.pend = {}]
+Die(st, kind, v) == [st EXCEPT !.proc = "zombie", !.fk = kind, !.fv = v, !.pend = {},
+                                !.fc = (kind = "sig" /\ st.core /\ v \in CoreSigs)]
 Ignored(st, sig) == st.disp = "ignore" /\ sig \in {HUP, INT}
 
 \* Which of several pending fatal signals ends a continued child: the kernel hands out the lowest
@@ -112,11 +129,13 @@ CloseMaster(st) ==
 Record(st) ==
   [st EXCEPT !.proc = "reaped", !.term = TRUE, !.obs = TRUE,
              !.es = IF st.fk = "exit" THEN st.fv ELSE None,
-             !.ss = IF st.fk = "sig" THEN st.fv ELSE None,
-             !.sk = st.fk, !.sv = st.fv]
+             \* (sensitivity only) the whole low byte of the wait status taken for the signal
+             !.ss = IF st.fk = "sig" THEN (IF "signal-with-core-bit" \in Devs /\ st.fc THEN st.fv + 128 ELSE st.fv) ELSE None,
+             !.sk = st.fk, !.sv = st.fv, !.sc = st.fc]
 
 \* PtyProcess.isalive() / spawn.isalive(): r in "True", "False", "BLOCK" (blocking waitpid
-\* because the EOF flag is set, child still there), "ExceptionPexpect" (ECHILD)
+\* because the EOF flag is set, child still there), "ExceptionPexpect" (ECHILD: the status was
+\* collected by someone else - nothing is recorded, pexpect does not claim to have seen the death)
 PIsAlive(st) ==
   IF st.term THEN R(st, "False")
   ELSE IF st.proc = "zombie" THEN R(Record(st), "False")
@@ -170,6 +189,14 @@ PtyIsAlive(st) == {PIsAlive(st)}
 
 PtyWait(st) ==
   LET a == PIsAlive(st) IN
+  IF st.stolen /\ ~st.term
+  THEN \* ECHILD from the poll (PtyProcessError -> ExceptionPexpect) or, when the child was still running
+       \* at the poll and its status went to someone else before / while wait() blocked, from the
+       \* blocking waitpid itself (a bare ChildProcessError).  Nothing is recorded either way.
+       {a, R(st, "OSError")}
+       \* (sensitivity only) the ECHILD is swallowed: "terminated", no status at all
+       \cup (IF "wait-swallows-echild" \in Devs THEN {R([st EXCEPT !.term = TRUE, !.obs = TRUE], "None")} ELSE {})
+  ELSE
   {IF a.r = "True" THEN R(st, "BLOCK")                   \* blocking waitpid on a running / stopped child
    ELSE IF a.r = "False"
         THEN (IF a.st.es = None THEN R(a.st, "None") ELSE RV(a.st, "int", a.st.es))
@@ -178,9 +205,14 @@ PtyWait(st) ==
 PtyKill(st, sig) == {PKill(st, sig)}
 PtyTerminate(st, force) == {PTerminate(st, force)}
 
+\* (sensitivity only) close() begins with flushing the log files: a log the caller has closed makes
+\* it raise before anything is released
+FlushRaises(st) == "close-flushes-logs" \in Devs /\ st.log = "closed"
+
 PtyClose(st, force) ==
   LET p == PClose(st, force) IN
-  IF p.r = "None"
+  IF FlushRaises(st) THEN {R(st, "ValueError")}
+  ELSE IF p.r = "None"
   THEN LET a == IF "close-no-refresh" \in Devs     \* (sensitivity only) what ptyprocess learnt is not copied
                 THEN R([p.st EXCEPT !.term = st.term, !.obs = st.obs, !.es = st.es, !.ss = st.ss,
                                     !.sk = st.sk, !.sv = st.sv], "False")
@@ -193,11 +225,16 @@ PtyClose(st, force) ==
        \cup (IF "stale-after-failed-close" \in Devs THEN {Dev(R(p.st, p.r), "stale-after-failed-close")} ELSE {})
   ELSE {p}
 
-PtySendEof(st) == {IF st.fobj THEN R(st, "ValueError") ELSE R(st, "None")}
+\* a closed log file in the send direction: _log() raises ValueError (send: before anything is
+\* written; sendeof: after the control character went out)
+LogBroken(st) == st.log = "closed" /\ st.lsend
+
+PtySendEof(st) == {IF st.fobj \/ LogBroken(st) THEN R(st, "ValueError") ELSE R(st, "None")}
 
 \* os.write(self.child_fd, ..)
 PtySend(st) ==
-  {IF st.fdv = "m1" THEN R(st, "OSError")
+  {IF LogBroken(st) THEN R(st, "ValueError")
+   ELSE IF st.fdv = "m1" THEN R(st, "OSError")
    ELSE IF st.fd = "open" THEN RV(st, "int", 1)
    ELSE IF st.fd = "closed" THEN R(st, "OSError")
    ELSE RV([st EXCEPT !.touched = TRUE], "int", 1)}       \* written into someone else's descriptor
@@ -255,6 +292,7 @@ FdIsAlive(st) ==
 
 FdClose(st) ==
   IF st.fdv = "m1" THEN {R(st, "None")}
+  ELSE IF FlushRaises(st) THEN {R(st, "ValueError")}
   ELSE {R([st EXCEPT !.fd = "closed", !.fdv = "m1", !.closed = TRUE], "None")}
        \* deviation of the code as it is: shutdown() fails once the peer is gone (ENOTCONN after a
        \* reset, or after our own write hit the closed peer), close() raises, nothing is released
@@ -262,7 +300,8 @@ FdClose(st) ==
              THEN {Dev(R(st, "OSError"), "socket-close-raises")} ELSE {})
 
 FdSend(st) ==
-  IF st.closed THEN {R(st, "OSError")}
+  IF LogBroken(st) THEN {R(st, "ValueError")}
+  ELSE IF st.closed THEN {R(st, "OSError")}
   ELSE {RV(st, "int", 1), R(st, "OSError")}        \* delivered, or EPIPE / EBADF on a read-only end: not lifecycle's business
 
 FdReadLike(st, ateof) ==
@@ -333,6 +372,13 @@ EnvReuse(st)      == IF st.fd = "closed" THEN {[st EXCEPT !.fd = "reused"]} ELSE
 EnvPeerClose(st)  == IF st.tr \in {"fd", "socket"} /\ st.peer = "open" THEN {[st EXCEPT !.peer = "closed"]} ELSE {}
 EnvPeerReset(st)  == IF st.tr = "socket" /\ st.peer = "open" THEN {[st EXCEPT !.peer = "reset"]} ELSE {}
 
+\* the dead child's status goes to someone else: a foreign waitpid() gets there first, or SIGCHLD is
+\* ignored in the host program and the kernel discards it
+\* (pty children only: PopenSpawn leaves the reaping to the subprocess module)
+EnvStolen(st)     == IF st.proc = "zombie" /\ st.tr = "pty" THEN {[st EXCEPT !.proc = "reaped", !.stolen = TRUE]} ELSE {}
+\* the owner of the log file closes it
+EnvLogClose(st)   == IF st.log = "open" /\ st.tr # "popen" THEN {[st EXCEPT !.log = "closed"]} ELSE {}
+
 EnvOutcomes(st, a, v) ==
   CASE a = "exit"      -> EnvExit(st, v)
     [] a = "selfkill"  -> IF st.proc = "run" THEN EnvSig(st, v) ELSE {}
@@ -340,13 +386,15 @@ EnvOutcomes(st, a, v) ==
     [] a = "reuse"     -> EnvReuse(st)
     [] a = "peerclose" -> EnvPeerClose(st)
     [] a = "peerreset" -> EnvPeerReset(st)
+    [] a = "stolen"    -> EnvStolen(st)
+    [] a = "logclose"  -> EnvLogClose(st)
     [] OTHER -> {}
 
 (* ---------------------------- the model ---------------------------------- *)
 NoLast == [op |-> "none", arg |-> 0, r |-> "None", v |-> None, wasClosed |-> FALSE, wasDone |-> FALSE, unch |-> TRUE,
            wasTerm |-> FALSE, pes |-> None, pss |-> None, psk |-> "none", psv |-> None]
 
-Init == /\ s \in {InitState(tr, d) : tr \in Transports, d \in Disps}
+Init == /\ s \in {InitStateL(tr, d, lg, TRUE) : tr \in Transports, d \in Disps, lg \in Logs}
         /\ last = NoLast /\ nops = 0 /\ nenv = 0
 
 Do(op, arg) ==
@@ -384,6 +432,8 @@ ExternalSignal(g) == /\ Live(s) /\ Env(EnvSig(s, g))            \* 19: ChildStop
 NumberReused      == /\ EnvReuse(s) # {} /\ s' \in EnvReuse(s) /\ last' = EnvLast /\ UNCHANGED <<nops, nenv>>
 PeerCloses        == /\ s.peer = "open" /\ Env(EnvPeerClose(s))
 PeerResets        == /\ s.peer = "open" /\ Env(EnvPeerReset(s))
+StatusStolen      == /\ Steal /\ Env(EnvStolen(s))
+LogCloses         == /\ Env(EnvLogClose(s))
 
 Next ==
   \/ IsAlive \/ Wait
@@ -397,6 +447,7 @@ Next ==
   \/ \E g \in ExtSigs : ExternalSignal(g)
   \/ NumberReused
   \/ PeerCloses \/ PeerResets
+  \/ StatusStolen \/ LogCloses
 
 Spec == Init /\ [][Next]_vars
 
@@ -412,13 +463,22 @@ ObservedStatusTrue ==
     /\ s.fk = "sig"  => (s.ss = s.fv /\ s.es = None)
     /\ s.fk # "none"
     /\ s.sk = s.fk /\ s.sv = s.fv
+    /\ s.sc = (s.fc /\ s.tr = "pty")   \* (PopenSpawn builds `status` from the return code: no core flag)
     /\ s.term
     /\ s.proc = "reaped"
+    /\ ~s.stolen                        \* what pexpect reports it has seen itself
 
-\* every way of looking observes a death that has happened
+\* every way of looking observes a death that has happened - unless the status went to someone
+\* else: then the call raises, and pexpect does not claim anything
+Errors == {"OSError", "ValueError", "ExceptionPexpect"}
 DeathObserved ==
   (Child /\ ~Live(s) /\ last.r \notin {"BLOCK"}
-    /\ last.op \in {"IsAlive", "Wait", "Close", "Terminate", "WithExit"}) => s.obs
+    /\ last.op \in {"IsAlive", "Wait", "Close", "Terminate", "WithExit"})
+  => IF s.stolen THEN (last.r \in Errors /\ ~s.term /\ ~s.obs) ELSE s.obs
+
+\* terminated is never claimed without exactly one status
+NoClaimWithoutStatus ==
+  (s.tr = "pty" /\ ~s.gone /\ s.term) => (s.obs /\ ((s.es # None) # (s.ss # None)))
 
 \* the values never change afterwards
 StableStep == (s.obs /\ ~s'.gone) => (s'.obs /\ s'.es = s.es /\ s'.ss = s.ss /\ s'.sk = s.sk /\ s'.sv = s.sv /\ s'.term)
@@ -429,7 +489,7 @@ StatusStableInv ==
   (last.wasTerm /\ ~s.gone) => (s.obs /\ s.es = last.pes /\ s.ss = last.pss /\ s.sk = last.psk /\ s.sv = last.psv /\ s.term)
 
 WaitReturnsCode ==
-  (last.op = "Wait" /\ last.r # "BLOCK") =>
+  (last.op = "Wait" /\ last.r # "BLOCK" /\ ~(s.stolen /\ last.r \in Errors)) =>
      IF s.fk = "exit" THEN last.r = "int" /\ last.v = s.fv
      ELSE IF s.tr = "popen" THEN last.r = "int" /\ last.v = 0 - s.fv
      ELSE last.r = "None"
@@ -457,7 +517,6 @@ NoLeak ==
   /\ (last.op \in CloseOps \/ (last.op = "Del" /\ s.tr = "pty")) => s.fd # "open"
 
 IoOps == {"Send", "SendEof", "Read", "ExpectEOF"}
-Errors == {"OSError", "ValueError", "ExceptionPexpect"}
 AfterCloseIoFails ==
   /\ ~s.touched
   /\ (last.op \in IoOps /\ last.wasClosed) => last.r \in Errors
